@@ -11,6 +11,8 @@ def cfg_args(cfg):
     a = ["-q", "-c", cfg.get("comp", "gzip"), "-b", str(cfg.get("bs", 4096))]
     if cfg.get("X"):
         a += ["-X", cfg["X"]]
+    if cfg.get("B"):
+        a += ["-B", str(cfg["B"])]
     if cfg.get("T"):
         a.append("-T")
     if cfg.get("e"):
